@@ -31,7 +31,7 @@ struct Obs {
   int pos[MAXV][3];
 };
 static inline void pos_of(const TopologyKernel &, int, int *o) { o[0] = o[1] = o[2] = 0; }
-static inline void pos_of(const GeoMesh &m, int v, int *o) { const V3 &p = m.vertex(VH(v)); o[0] = p[0]; o[1] = p[1]; o[2] = p[2]; }
+template <class TK> static inline void pos_of(const GeometryKernel<V3, TK> &m, int v, int *o) { const V3 &p = m.vertex(VH(v)); o[0] = p[0]; o[1] = p[1]; o[2] = p[2]; }
 template <class M> static void observe(const M &m, Obs &o) {
   take_snapshot(m, o.s);
   o.deferred = m.deferred_deletion_enabled(); o.fast = m.fast_deletion_enabled();
